@@ -89,10 +89,30 @@ for f, fn in guards:
     stops.append((f, fn, ok))
     if not ok:
         problems.append("%s:%s does not stop at the first error (%s): on a circular definition it visits inputs^depth nodes" % (f, fn, why))
+# LINTERP table reader (common.c:_GD_ReadLinterpFile): chunk size and the growth step after every stored row
+cs = re.sub(r"/\*.*?\*/", "", open(os.path.join(REPO, "src", "common.c"), errors="replace").read(), flags=re.S)
+mch = re.search(r"^#define\s+GD_LUT_CHUNK\s+(\d+)\s*$", h, re.M)
+lut_chunk = int(mch.group(1)) if mch else 0
+if not mch:
+    problems.append("GD_LUT_CHUNK not found as a decimal #define in internal.h")
+rb = fn_body(cs, "_GD_ReadLinterpFile") or ""
+rbn = re.sub(r"\s+", "", rb)
+lut_init = "intbuf_len=GD_LUT_CHUNK;" in rbn and "_GD_Malloc(D,buf_len*sizeof(*E->e->u.linterp.lut))" in rbn
+mg = re.search(r"i\+\+;if\(i(>=|>|==)buf_len\)\{buf_len\+=(\w+);ptr=_GD_Realloc\(D,E->e->u\.linterp\.lut,buf_len\*sizeof\(\*ptr\)\);", rbn)
+lut_ge = bool(mg and mg.group(1) in (">=", "=="))
+lut_by_chunk = bool(mg and mg.group(2) == "GD_LUT_CHUNK")
+if not lut_init:
+    problems.append("_GD_ReadLinterpFile: initial table allocation of GD_LUT_CHUNK rows not recognised")
+if not mg:
+    problems.append("_GD_ReadLinterpFile: growth step after i++ not recognised")
+elif not lut_ge or not lut_by_chunk:
+    problems.append("_GD_ReadLinterpFile: the table grows when i %s buf_len by %s: a row is stored beyond the allocation" % (mg.group(1), mg.group(2)))
 txt = "(* GENERATED by translate/tr_limits.py -- do not edit *)\nRequire Import List String. Import ListNotations. Open Scope string_scope.\n"
 txt += "Definition gd_max_recurse_level : nat := %d.\n" % lim
 txt += "Definition recurse_guarded : list (string * string) := [\n" + ";\n".join('  ("%s", "%s")' % g for g in guards) + "\n].\n"
 txt += "Definition stops_at_first_error : list (string * string * bool) := [\n" + ";\n".join('  ("%s", "%s", %s)' % (a, b, "true" if c else "false") for a, b, c in stops) + "\n].\n"
+txt += "Definition lut_chunk : nat := %d.\nDefinition lut_initial_is_chunk : bool := %s.\nDefinition lut_grows_when_full : bool := %s.\nDefinition lut_grows_by_chunk : bool := %s.\n" % (
+    lut_chunk, "true" if lut_init else "false", "true" if lut_ge else "false", "true" if lut_by_chunk else "false")
 txt += "(* problems: %d *)\n" % len(problems) + "".join("(* PROBLEM: %s *)\n" % p for p in problems)
 os.makedirs(os.path.dirname(OUT), exist_ok=True)
 if not os.path.exists(OUT) or open(OUT).read() != txt:
